@@ -42,7 +42,9 @@ class HistGen(object):
         self.w = dict(insert_one=18, insert_many=6, update_one=14, update_many=8, replace_one=8,
                       delete_one=5, delete_many=3, find=4, count=3, distinct=2,
                       create_index=6 if indexes else 0, drop_index=1 if indexes else 0,
-                      drop_indexes=1 if indexes else 0, drop=1, clock=6 if ttl else 0)
+                      drop_indexes=1 if indexes else 0, drop=1, clock=6 if ttl else 0,
+                      find_one=0, find_one_and_update=0, find_one_and_replace=0,
+                      find_one_and_delete=0, bulk_write=0)
         if weights:
             self.w.update(weights)
         self.shadow = []          # rough picture of the documents, to aim filters and updates
@@ -115,6 +117,18 @@ class HistGen(object):
             return ['count', self.filt(), r.choice([0, 0, 1, 2]), r.choice([None, None, 1, 2, 0])]
         if k == 'distinct':
             return ['distinct', self.g.path(self.some_doc()), self.filt()]
+        if k == 'find_one':
+            return ['find_one', self.filt(), self.projection(), self.sort()]
+        if k in ('find_one_and_update', 'find_one_and_replace'):
+            u = self.ug.update(self.some_doc()) if k.endswith('update') else \
+                self.ug.replacement(self.some_doc())
+            return [k, self.fam_filter(), u, self.projection(), self.sort(), r.random() < 0.25,
+                    r.random() < 0.5]
+        if k == 'find_one_and_delete':
+            return [k, self.fam_filter(), self.projection(), self.sort()]
+        if k == 'bulk_write':
+            return ['bulk_write', [self.request() for _ in range(r.choice([1, 2, 3, 4, 5]))],
+                    r.random() < 0.5]
         if k == 'create_index':
             return self.create_index()
         if k == 'drop_index':
@@ -129,6 +143,50 @@ class HistGen(object):
             self.now += r.choice([-50, -1, 1, 1, 5, 20, 50, 200]) * 1000000
             return ['clock', self.now]
         raise ValueError(k)
+
+    def fam_filter(self):
+        """filters that often match several documents"""
+        x = self.r.random()
+        if x < 0.3:
+            return {}
+        if x < 0.6:
+            return {self.r.choice(['a', 'b']): self.r.choice([1, 2, None, 'x'])}
+        return self.filt()
+
+    def projection(self):
+        x = self.r.random()
+        if x < 0.45:
+            return None
+        if x < 0.6:
+            return {'_id': 0}
+        if x < 0.7:
+            return {'_id': 0, self.r.choice(gen.FIELDS): 1}
+        if x < 0.8:
+            return {self.r.choice(gen.FIELDS): 1}
+        if x < 0.9:
+            return {self.r.choice(gen.FIELDS): 0}
+        return {'_id': 0, 'zz': 1}
+
+    def sort(self):
+        x = self.r.random()
+        if x < 0.35:
+            return None
+        keys = self.r.sample(['a', 'b', '_id'], self.r.choice([1, 1, 2]))
+        return [[k, self.r.choice([1, -1])] for k in keys]
+
+    def request(self):
+        r = self.r
+        k = r.choice(['InsertOne', 'InsertOne', 'UpdateOne', 'UpdateMany', 'ReplaceOne',
+                      'DeleteOne', 'DeleteMany'])
+        if k == 'InsertOne':
+            d = self.new_doc()
+            self.shadow.append(copy.deepcopy(d))
+            return [k, d]
+        if k in ('UpdateOne', 'UpdateMany'):
+            return [k, self.filt(), self.ug.update(self.some_doc()), r.random() < 0.3]
+        if k == 'ReplaceOne':
+            return [k, self.filt(), self.ug.replacement(self.some_doc()), r.random() < 0.3]
+        return [k, self.filt()]
 
     def create_index(self):
         r = self.r
@@ -163,6 +221,32 @@ class HistGen(object):
 def enc_op(op, oids):
     """the op as a wire value (lists → arrays)"""
     return wire.encs(op, oids)
+
+
+class Request(object):
+    """stand-in for the pymongo write models (pymongo is absent): bulk_write only needs
+    `_add_to_bulk`"""
+
+    def __init__(self, spec):
+        self.spec = spec
+
+    def _add_to_bulk(self, bulk):
+        k = self.spec[0]
+        a = self.spec[1:]
+        if k == 'InsertOne':
+            bulk.add_insert(a[0])
+        elif k == 'UpdateOne':
+            bulk.add_update(a[0], a[1], multi=False, upsert=a[2])
+        elif k == 'UpdateMany':
+            bulk.add_update(a[0], a[1], multi=True, upsert=a[2])
+        elif k == 'ReplaceOne':
+            bulk.add_replace(a[0], a[1], upsert=a[2])
+        elif k == 'DeleteOne':
+            bulk.add_delete(a[0], just_one=True)
+        elif k == 'DeleteMany':
+            bulk.add_delete(a[0], just_one=False)
+        else:
+            raise ValueError(k)
 
 
 class PyRunner(object):
@@ -222,6 +306,30 @@ class PyRunner(object):
                 return c.count_documents(a[0], **kw), extra
             if k == 'distinct':
                 return ('set', c.distinct(a[0], a[1])), extra
+            if k == 'find_one':
+                kw = {}
+                if a[2] is not None:
+                    kw['sort'] = [tuple(x) for x in a[2]]
+                return c.find_one(a[0], a[1], **kw), extra
+            if k in ('find_one_and_update', 'find_one_and_replace'):
+                kw = {'projection': a[2], 'upsert': a[4], 'return_document': bool(a[5])}
+                if a[3] is not None:
+                    kw['sort'] = [tuple(x) for x in a[3]]
+                return getattr(c, k)(a[0], a[1], **kw), extra
+            if k == 'find_one_and_delete':
+                kw = {'projection': a[1]}
+                if a[2] is not None:
+                    kw['sort'] = [tuple(x) for x in a[2]]
+                return c.find_one_and_delete(a[0], **kw), extra
+            if k == 'bulk_write':
+                r = c.bulk_write([Request(x) for x in a[0]], ordered=a[1])
+                br = r.bulk_api_result
+                return {'nInserted': br['nInserted'], 'nMatched': br['nMatched'],
+                        'nModified': br.get('nModified'), 'nRemoved': br['nRemoved'],
+                        'nUpserted': br['nUpserted'],
+                        'upserted': [{'index': u['index'], '_id': u['_id']}
+                                     for u in br['upserted']],
+                        'writeErrors': []}, extra
             if k == 'create_index':
                 return c.create_index([tuple(x) for x in a[0]], **a[1]), extra
             if k == 'drop_index':
@@ -233,11 +341,18 @@ class PyRunner(object):
             raise ValueError('unknown op ' + k)
         except BulkWriteError as e:
             d = e.details
-            det = {'writeErrors': [{'index': w['index'], 'code': w['code']}
-                                   for w in d.get('writeErrors', [])]}
-            for key in ('nInserted',):
-                if key in d:
-                    det[key] = d[key]
+            errs = [{'index': w['index'], 'code': w['code']} for w in d.get('writeErrors', [])]
+            if 'nMatched' in d:      # from bulk_write: the whole result document
+                det = {'nInserted': d['nInserted'], 'nMatched': d['nMatched'],
+                       'nModified': d.get('nModified'), 'nRemoved': d['nRemoved'],
+                       'nUpserted': d['nUpserted'],
+                       'upserted': [{'index': u['index'], '_id': u['_id']}
+                                    for u in d['upserted']],
+                       'writeErrors': errs}
+            else:                    # from insert_many
+                det = {'writeErrors': errs}
+                if 'nInserted' in d:
+                    det['nInserted'] = d['nInserted']
             return ('!', 'BulkWriteError', det), extra
         except Exception as e:  # pylint: disable=broad-except
             return ('!', wire.err_name(e)), extra
